@@ -1361,8 +1361,8 @@ def part_b_file(ck, rng, tmp, fi, sp, quirk, add, fail, stats, thorough, fgroups
                     return
             else:
                 # ---- model on the variant: same observations as the reference (order-free ones)
-                if ref is not None and ghdr is not None and (not thorough or oi <= 3 or v["id"] == 0):
-                    # (thorough: 14 of the 20 variants of each of the 200 files go through Coq, all through pint)
+                if ref is not None and ghdr is not None and (oi <= 3 or v["id"] == 0):
+                    # (14 of the 20 variants of each file go through the Coq reader as well; all 20 through pint)
                     # the observations are those of the reference file: pint gave the same answers on this
                     # variant (oracle below), so the model must give them on the variant's lines
                     dl, _flat, _st = def_lines(main)
